@@ -272,3 +272,63 @@ def text_flow(ctx, rule, what='parse(dump(g))'):
         ctx.error(rule, '%s `%s`: the document text is used in a way that is not tabled; cannot decide' % (where, t[:70]))
     ctx.count('rebindings of the document text in parse()', n)
     ctx.floor('rebindings of the document text in parse()', n, 3)
+
+
+# ---------------------------------------------------------------- order-carrying structures are not built from sets
+
+def _is_set_expr(e):
+    """syntactic: does the expression denote a set (iteration order = hash order)?"""
+    if isinstance(e, (ast.Set, ast.SetComp)):
+        return True
+    if isinstance(e, ast.Call) and norm(e.func) in ('set', 'frozenset'):
+        return True
+    if isinstance(e, ast.BinOp) and isinstance(e.op, (ast.Sub, ast.BitAnd, ast.BitOr, ast.BitXor)):
+        def viewish(x):
+            return _is_set_expr(x) or (isinstance(x, ast.Call) and isinstance(x.func, ast.Attribute)
+                                       and x.func.attr in ('keys', 'items', 'viewkeys', 'viewitems') and not x.args)
+        return viewish(e.left) or viewish(e.right)
+    if isinstance(e, ast.Call) and isinstance(e.func, ast.Attribute) and e.func.attr in (
+            'difference', 'intersection', 'union', 'symmetric_difference') and _is_set_expr(e.func.value):
+        return True
+    return False
+
+
+def set_iteration(ctx, rule, modnames, file_of=lambda mn: 'hszinc/%s.py' % mn):
+    """Grid metadata, column metadata and column order are ORDERED (they are written back in that order).  A loop or
+    comprehension that walks a set expression (set(...), keys() - {...}, a set literal) to build a dict / list hands the
+    order over to the string hash: it differs between tag sets, and between processes under hash randomisation."""
+    m = ctx.model
+    n = 0
+    for mn in modnames:
+        try:
+            tree = m.mod(mn).tree
+        except AnalysisError as e:
+            ctx.error(rule, str(e))
+            continue
+        for node in ast.walk(tree):
+            iters = []
+            if isinstance(node, ast.For):
+                builds = any(isinstance(x, ast.Assign) and any(isinstance(t, ast.Subscript) for t in x.targets) for x in ast.walk(node)) \
+                    or any(isinstance(x, ast.Call) and isinstance(x.func, ast.Attribute) and x.func.attr in ('append', 'add_item', 'extend', 'insert')
+                           for x in ast.walk(node))
+                if builds:
+                    iters.append(node.iter)
+            elif isinstance(node, (ast.DictComp, ast.ListComp, ast.GeneratorExp)):
+                iters.extend(g.iter for g in node.generators)
+            for it in iters:
+                n += 1
+                if _is_set_expr(it):
+                    ctx.violation(rule, '%s::%s' % (file_of(mn), _enclosing(node)), norm(it)[:80],
+                                  'a grid whose metadata holds the tags dis, site, equip, navId (in that order): after the round '
+                                  'trip the tags come back in the order of their string hashes, e.g. equip, navId, dis, site -- and '
+                                  'in another order in the next process (PYTHONHASHSEED)',
+                                  'an ordered structure (tags / columns) is built by walking the set `%s`' % norm(it)[:60],
+                                  file=file_of(mn), line=node.lineno, engine='E7')
+    ctx.count('loops and comprehensions that build ordered structures (%s)' % ','.join(modnames), n)
+
+
+def _enclosing(node):
+    p = node
+    while p is not None and not isinstance(p, ast.FunctionDef):
+        p = getattr(p, '_parent', None)
+    return p.name if p is not None else '<module>'
